@@ -19,7 +19,7 @@ pub struct F {
 fn script(resume: &str) -> String {
     let r = if resume == "tail" { String::new() } else { format!("  resume_from: \"{}\"\n", resume) };
     format!(
-        "$env.n = 0\n\ndef --env bump [] {{\n  $env.n = $env.n + 1\n  $env.n\n}}\n\n{{\n{}  run: {{|frame|\n    let n = (bump)\n    {{n: $n, t: $frame.topic}}\n  }}\n}}",
+        "$env.n = 0\n\ndef --env bump [] {{\n  $env.n = $env.n + 1\n  $env.n\n}}\n\n{{\n{}  run: {{|frame|\n    let n = (bump)\n    if $frame.topic == \"g.out\" {{ null | .append relay --meta $frame.meta }}\n    {{n: $n, t: $frame.topic}}\n  }}\n}}",
         r
     )
 }
@@ -100,7 +100,10 @@ pub fn run_case(case: &Value) -> (Vec<F>, String) {
         }
     }
     let log = w.snapshot();
-    let mine: Vec<&Frame> = log.iter().filter(|f| f.topic == "h.out" && meta_str(f, "handler_id") == Some(reg.id.to_string())).collect();
+    // the instance's own emissions are recognised by construction (only it emits these topics after
+    // its registration), not by the stamp the subject puts on them
+    let is_own = |f: &Frame| (f.topic == "h.out" || f.topic == "relay") && f.id > reg.id;
+    let mine: Vec<&Frame> = log.iter().filter(|f| f.topic == "h.out" && f.id > reg.id && f.context_id == ctx).collect();
     // invocation sequence: (frame_id, n, topic seen)
     let mut seq: Vec<(String, i64, String)> = vec![];
     for f in &mine {
@@ -127,7 +130,7 @@ pub fn run_case(case: &Value) -> (Vec<F>, String) {
         if is_boot(f) {
             continue;
         }
-        let own = meta_str(f, "handler_id") == Some(reg.id.to_string());
+        let own = is_own(f) || meta_str(f, "handler_id") == Some(reg.id.to_string());
         let stale_reg = (f.topic == "h.register" || f.topic == "h.unregister") && f.id <= reg.id;
         if own || stale_reg {
             continue;
@@ -181,7 +184,7 @@ pub fn run_case(case: &Value) -> (Vec<F>, String) {
     for s in &seen {
         if !req_set.contains(&s.0) && !optional.contains(&s.0) && stream_ids.contains(&s.0) {
             let f = stream.iter().find(|f| f.id.to_string() == s.0).unwrap();
-            let kind = if meta_str(f, "handler_id") == Some(reg.id.to_string()) {
+            let kind = if is_own(f) || meta_str(f, "handler_id") == Some(reg.id.to_string()) {
                 "c14.self_loop"
             } else if f.topic == "h.register" || f.topic == "h.unregister" {
                 "c14.stale_registration"
